@@ -719,5 +719,15 @@ def rule_hidden(ctx):
     return r
 
 
+def rule_reusable(ctx):
+    """Shared with C14-HITREBUILD: the 'auto' presets answer through a reusable
+    optimizer; its in-memory reuse is invisible only if hits are rebuilt per query."""
+    from .c14 import rule_hitrebuild as src
+
+    return C.reuse_rule(ctx, src, "C14-HITREBUILD", "C13-REUSABLE",
+                        "preset optimizers that reuse results rebuild the tree per query",
+                        lambda i: True, 1)
+
+
 RULES = [rule_keycomp, rule_keyinj, rule_keyspace, rule_unhash, rule_identity, rule_memo, rule_stateless,
-         rule_whitelist, rule_dispatch, rule_hidden]
+         rule_whitelist, rule_dispatch, rule_hidden, rule_reusable]
